@@ -205,7 +205,7 @@ func wfPacket(p rtcp.Packet) bool {
 		}
 		return true
 	case *rtcp.FullIntraRequest:
-		return len(v.FIR) >= 1 && len(v.FIR) <= 8190
+		return len(v.FIR) >= 1 && len(v.FIR) <= 32766
 	case *rtcp.ReceiverEstimatedMaximumBitrate:
 		f := float64(v.Bitrate)
 		return len(v.SSRCs) <= 255 && !math.IsNaN(f) && !(f < 0) && !math.IsInf(f, 0)
